@@ -64,6 +64,11 @@ def run(ctx):
     C.tlc_must_pass(r, "MC_Eval/diag")
     ctx.add_tlc(r)
     cases = [c for c in r.cases if c["k"] != "unknown"]
+    ctx.extra["diag_programs_generated"] = len(cases)
+    cap = 60000
+    if len(cases) > cap:          # thorough tier: the deeper profile yields millions of programs; a seeded sample of it is compiled
+        import random
+        cases = random.Random(ctx.seed).sample(cases, cap)
     jobs = []
     meta = []
     PAD = 12
